@@ -395,11 +395,12 @@ class CallGraphQuery:
 
         # Convert execution statuses into root job statuses.
         # When the root job is CACHED, we consider the Execution DONE.
-        job_statuses = list(execution_statuses)
+        # An Execution itself is never CACHED, so that status selects no Executions.
+        job_statuses = [status for status in execution_statuses if status != "CACHED"]
         if "DONE" in job_statuses:
             job_statuses.append("CACHED")
 
-        execution_clause = reduce(sa.or_, map(self._job_status_term, job_statuses))
+        execution_clause = reduce(sa.or_, map(self._job_status_term, job_statuses), sa.false())
 
         def filter(query):
             return query.clone(executions=query._executions.filter(execution_clause))
